@@ -6,18 +6,18 @@ sys.path.insert(0, os.path.join(V, 'lib'))
 import vk
 
 TEXT = {
- "C01": ("kernel level: range-coder bit/tree/direct-bit mirrors, distance-slot arithmetic for every u32, LZMA2 chunk-header writer<->reader step, LZ window and LZ dictionary one-step invariants, each decided by CBMC over all symbolic inputs inside the stated bounds. Whole-stream round trips (match finders on real hash tables, optimal parser, >1 symbol) are outside the claim.", "6/C01"),
+ "C01": ("kernel level: range-coder bit/tree/direct-bit mirrors, distance-slot arithmetic for every u32, LZMA2 chunk-header writer<->reader step, LZ window and LZ dictionary one-step invariants, one HC4 / BT4 match-finder step from an arbitrary finder state (every reported pair is a true match inside dictionary and window; hash tables as environment stub), Fast-mode parser soundness (thorough), each decided by CBMC over all symbolic inputs inside the stated bounds. Whole-stream round trips (optimal parser, LZMA symbol layer beyond one literal, >1 symbol) are outside the claim.", "6/C01"),
  "C02": ("container-field level: LZIP dictionary byte for every u32, XZ multibyte integers for every u64, stream header / block header / index / footer writer<->parser round trips for symbolic field values, LZIP header/trailer fields. Payload coding is covered only through the C01 kernels.", "6/C02"),
  "C03": ("differential against a short reference model of the xz / lzip / LZMA_Alone / LZMA2-chunk layouts written from the format specifications; liblzma itself is C behind FFI and cannot be encoded, so acceptance by the real reference binary is outside the claim.", "6/C03"),
- "C04": ("detection-logic level: every integrity comparison site (XZ stream header/footer/block header/index CRC32, block check, LZIP trailer fields, magic/version/dictionary byte) returns Ok only when the stored field equals the recomputed one, for all field values. 'Every corruption of every file' is outside (and false for any 32-bit check).", "6/C04"),
+ "C04": ("detection-logic level: every integrity comparison site (XZ stream header/footer/block header/index CRC32, block check, LZIP trailer fields, magic/version/dictionary byte) returns Ok only when the stored field equals the recomputed one, for all field values; index records are compared with the decoded blocks; input ending inside a following stream's magic is an error. 'Every corruption of every file' is outside (and false for any 32-bit check).", "6/C04"),
  "C05": ("fault-schedule level: EOF position / error call index / short-read and short-write counts are symbolic variables of the source and sink stubs; decided for the range decoder source, LZMA2 header reads, XZ padding read, Delta/BCJ filter wrappers and the no_std read_exact/write_all helpers.", "6/C05"),
  "C06": ("totality (no panic, no arithmetic overflow, no out-of-bounds, bounded allocation) of every header/field parser, every filter kernel and the LZ dictionary step on arbitrary bytes and caller parameters, within stated byte bounds. Whole-stream decode loops, termination time and MT readers are outside.", "6/C06"),
  "C07": ("step level: split invariance of Delta, BCJ reader/writer, LZ dictionary repeat/pending, window fill, and zero-length read guards. Real LZMA/LZMA2/XZ/LZIP writers with payload are outside.", "6/C07"),
  "C11": ("BCJ (8 architectures) decode(encode(x)) = x for all N-byte buffers and aligned offsets; simple-architecture filters equal a one-line reference formula; Delta equals its reference formula for every distance; BCJ2 decoder totality only.", "6/C11"),
  "C12": ("XZ part: stream-padding / next-stream logic for symbolic padding length and header bytes; stop after the footer with multi-stream off. LZIP member loop and MT member scan are outside.", "6/C12"),
- "C13": ("mechanism level, not output level: zero-initialised tables, look-ahead gating predicate, window-fill partition invariance. Byte-identical whole outputs across partitions, runs, worker counts and schedules are outside.", "6/C13"),
+ "C13": ("mechanism level, not output level: zero-initialised tables, look-ahead gating predicate, window-fill partition invariance, match-finder steps as functions of window and finder state, LZIP member limit independent of the write cut. Byte-identical whole outputs across partitions, runs, worker counts and schedules are outside.", "6/C13"),
  "C14": ("twin level: each cfg(feature=optimization) twin equals one common spec on symbolic inputs; the asm decode_direct_bits and the SIMD normalize lanes are lowered from the source text at check time and compared with the portable code; no_std Read/Write helpers meet std's contract.", "6/C14"),
- "C15": ("callee level: every raw read / get_unchecked / lowered asm load in lz/mod.rs, get_match_len_fast_reject, aligned_memory.rs and range_dec.rs is in bounds under its stated precondition (Kani pointer checks on the optimization build). That the match finders establish those preconditions is outside.", "6/C15"),
+ "C15": ("callee level: every raw read / get_unchecked / lowered asm load in lz/mod.rs, get_match_len_fast_reject, aligned_memory.rs and range_dec.rs is in bounds under its stated precondition (Kani pointer checks on the optimization build). Caller side: every match HC4 / BT4 report lies inside the window at both ends (one step from an arbitrary finder state, search depth <= 2-3); deeper searches and the Normal-mode parser are outside.", "6/C15"),
  "C16": ("kernel level: bytes pulled by the range decoder equal bytes pushed by the encoder (bounded number of coded bits + flush); LZMA2 header/prepare consume exactly header + compressed size; XZ stops after the footer.", "6/C16"),
  "C17": ("estimator arithmetic versus sizes read back from really constructed objects, for all dictionary sizes / lc / lp / mode / match finder; memory-limit check for all 13-byte .lzma headers.", "6/C17"),
  "C18": ("single-threaded part: XZ block / LZIP member / .lzma expected-size logic for symbolic sizes and write lengths; option clamps for all values. MT unit sizes and counts are outside.", "6/C18"),
